@@ -354,11 +354,13 @@ class C19(Harness):
         o2.fit_predict(predict_on_train=False, save_fitted_strategies=False)
         # (c) default features (all columns but the target) keep the frame's own column order
         df3 = pd.DataFrame({"zeta": [float(1 + i) for i in range(6)], "alpha": [float(50 - 7 * i) for i in range(6)], "target": [float(3 * i) for i in range(6)]})
+        df3.index = [3, 1, 5, 0, 2, 4]  # (a shuffled frame that was not re-indexed: folds and records go by position)
         results3 = res.RAMResults()
         est.STATE.update(n=0, K=None, fits=0, predicts=0, log=[])
         o3 = orch.Orchestrator([tasks.TSRTask(target="target")], [data.RAMDataset(df3, "dsC")], [strat.TSRStrategy(est.CountingRegressor(slope=2.0), name="s1")], self._mk(W, "kfold"), results3)
         o3.fit_predict(predict_on_train=False, save_fitted_strategies=False)
         out["default_features"] = sorted([int(f), [int(i) for i in r.index], [float(v) for v in r.y_pred]] for f in (0, 1) for r in results3.load_predictions(cv_fold=f, train_or_test="test"))
+        out["default_features_true"] = sorted([int(f), [float(v) for v in r.y_true]] for f in (0, 1) for r in results3.load_predictions(cv_fold=f, train_or_test="test"))
         out["shuffled"] = sorted([r.strategy_name, r.dataset_name, [int(i) for i in r.index], [float(v) for v in r.y_true], [float(v) for v in r.y_pred]] for r in results2.load_predictions(cv_fold=0, train_or_test="test"))
         return out
 
@@ -430,6 +432,8 @@ class C19(Harness):
                 P.check("ram-results-read-back", idx == want_idx and yt == [t[i] for i in want_idx] and yp == self._honest((x, t), tr, want_idx))
             folds3 = {0: ([3, 4, 5], [0, 1, 2]), 1: ([0, 1, 2], [3, 4, 5])}
             P.check("stored-record-is-honest", len(out["default_features"]) == 2, {"what": "default features: one record per fold"})
+            for fold, yt3 in out.get("default_features_true", []):
+                P.check("stored-record-is-honest", yt3 == [float(3 * i) for i in folds3[fold][1]], {"what": "true values of the fold's own instances (frame with permuted integer row labels)", "y_true": yt3})
             for fold, idx, yp in out["default_features"]:
                 tr3, te3 = folds3[fold]
                 P.check("stored-record-is-honest", idx == te3 and yp == self._honest((x, t), tr3, te3), {"what": "default features keep the frame's column order (first column = first feature)", "y_pred": yp})
